@@ -461,7 +461,11 @@ impl IncrementalEngine {
     pub fn read_relation_consistent(&self, relation: &str) -> Result<Vec<Tuple>, String> {
         let max_time = self.max_write_time.load(Ordering::SeqCst);
         let target = max_time + 1;
+        #[cfg(inputlayer_verif)]
+        crate::verif_hooks::yield_point("inc.read.after_max");
         self.advance_time(target)?;
+        #[cfg(inputlayer_verif)]
+        crate::verif_hooks::yield_point("inc.read.after_advance");
         self.wait_until_caught_up(target)?;
         self.read_relation(relation)
     }
